@@ -37,7 +37,7 @@ class C08(ProgramProperty):
                 xs.append(rng.choice(gen.uri_probes(rng, recs, 3)))
             else:
                 xs.append(rng.choice(["", delim, "nodelim", delim + "x", "x" + delim, " ", delim * 2, "\n"]))
-        steps = [init_step(0, recs, delim), q(0, "records"), q(0, "delimiter")]
+        steps = []
         for x in xs:
             for m in ONE_ARG:
                 for s, p in MODES:
@@ -50,7 +50,9 @@ class C08(ProgramProperty):
                     if m in NO_PT and p:
                         continue
                     steps.append(q(0, m, pfx, ident, s=s, p=p))
-        return {"steps": steps, "xs": xs, "delim": delim, "tags": [f"delim={delim!r}"]}
+        steps, how = gen.build_steps(rng, recs, delim, steps)
+        _build_tag = "build=" + how
+        return {"steps": steps, "xs": xs, "delim": delim, "tags": [f"delim={delim!r}", _build_tag]}
 
     def nontrivial(self, case, impl):
         res = results(case, impl)
